@@ -300,6 +300,9 @@ def cmp_pairs(ans, touched, argnames):
     return diffs
 
 
+ACCESS_DIFFS = {}
+
+
 def make_judge(kernel, st, res_canon, touched, oob, mutated, argnames, cmp=cmp_sets, extra=None, need_closed=True):
     def judge(answers):
         ans = answers[0]
@@ -324,7 +327,13 @@ def make_judge(kernel, st, res_canon, touched, oob, mutated, argnames, cmp=cmp_s
                 fs.extend(extra(ans))
             d = cmp(ans, touched, argnames)
             if d and not oob:
-                fs.append({"kind": "model", "what": f"{kernel}: touched cells differ: " + " | ".join(d[:3])})
+                # NOT a failure (it was, in the first version): which in-range entries a kernel reads is not part of the
+                # property. The harmless rewrite C08-h3 inlines upstream_count into stream_order (reads idxs_ds at more
+                # cells) and vectorises `drain != 1` in HAND (no scalar reads at all): results identical, every access in
+                # bounds, and the check answered `no-failing-input-found`. The tie to the model is the result equality above;
+                # "in bounds" is judged directly on every recorded access of the implementation (`oob`). The difference is
+                # counted so that the evidence shows when the logging model no longer describes the code's access pattern.
+                ACCESS_DIFFS[kernel] = ACCESS_DIFFS.get(kernel, 0) + 1
         return fs
     return judge
 
@@ -611,3 +620,9 @@ def run(ctx):
     ctx.add({"op": "negative-control:fill_depressions historical order"},
             [("c13b2_fill_bad", {"nrow": 3, "ncol": 3, "conn": 8, "i0": 0})], neg2, nontrivial=True)
     ctx.flush()
+    for k, v in sorted(ACCESS_DIFFS.items()):
+        ctx.count(f"obs:access-pattern-differs-from-the-logging-model:{k}", v)
+    if ACCESS_DIFFS:
+        ctx.notes.append("C13_bounds2: for " + ", ".join(sorted(ACCESS_DIFFS)) + " the implementation addresses other in-range entries than the "
+                         "logging model (results equal, every access in bounds): the in-bounds THEOREM no longer describes this code's access "
+                         "pattern; in-bounds is established by the direct check of the recorded accesses only")
